@@ -7,6 +7,7 @@ import (
 	"sync"
 
 	"github.com/bronlabs/bron-crypto/pkg/base/curves/k256"
+	"github.com/bronlabs/bron-crypto/pkg/mpc/signatures/ecdsa/dkls23"
 	"github.com/bronlabs/bron-crypto/pkg/mpc/signatures/ecdsa/lindell17"
 	"github.com/bronlabs/bron-crypto/pkg/proofs/sigma/compiler/fischlin"
 	"github.com/bronlabs/bron-crypto/pkg/signatures/ecdsa"
@@ -164,4 +165,78 @@ func p1Lindell17(x *engine.X) {
 		x.Failf("runner/outcome-differs/lindell17", "lindell17: the primary ended without a signature")
 	}
 	x.Observe(len(out.Errs))
+}
+
+// ---- DKLs23 threshold ECDSA signing over its runners, three cosigners (non-minimal quorum of T(2,3)) -------------
+// Three cosigners are needed for rounds to overlap: a fast party can deliver its round-(k+1) unicast to a party that
+// still waits for a slow party's round-k message.
+
+var (
+	dklsMu     sync.Mutex
+	dklsSuite  *ecdsa.Suite[*k256.Point, *k256.BaseFieldElement, *k256.Scalar]
+	dklsShards map[proto.ID]*dkls23.Shard[*k256.Point, *k256.BaseFieldElement, *k256.Scalar]
+	dklsRef    = map[string]string{}
+)
+
+// dklsSetup deals the key once per process and runs the undisturbed reference of the requested multiplier once.
+func dklsSetup(mult string) string {
+	dklsMu.Lock()
+	defer dklsMu.Unlock()
+	ids := []proto.ID{1, 2, 3}
+	if dklsShards == nil {
+		s, err := ecdsa.NewSuite(k256.NewCurve(), sha256.New)
+		if err != nil {
+			panic(engine.HarnessError{Msg: "ecdsa suite: " + err.Error()})
+		}
+		dklsSuite = s
+		base, err := proto.C01BaseShards(proto.C01Dealer, k256.NewCurve(), proto.Threshold(2, ids...), ids, 1, "c11/dkls23")
+		if err != nil {
+			panic(engine.HarnessError{Msg: "dkls23 dealer: " + err.Error()})
+		}
+		sh, err := proto.C01DKLs23Shards[*k256.Point, *k256.BaseFieldElement, *k256.Scalar](base)
+		if err != nil {
+			panic(engine.HarnessError{Msg: "dkls23 shards: " + err.Error()})
+		}
+		dklsShards = sh
+	}
+	if ref, ok := dklsRef[mult]; ok {
+		return ref
+	}
+	out := proto.C01DKLs23Run(zeroChooser{}, schednet.New(ids...), mult, dklsSuite, dklsShards, ids, []byte("m"), engine.Seed(), "c11")
+	sig, ok := out.Sigs["agg/outside"]
+	if !ok || len(out.Errs) != 0 {
+		panic(engine.HarnessError{Msg: fmt.Sprintf("dkls23-%s reference run failed: %v", mult, out.Errs)})
+	}
+	dklsRef[mult] = fmt.Sprintf("%x/%x", sig.R().Bytes(), sig.S().Bytes())
+	return dklsRef[mult]
+}
+
+func p1DKLs23(mult string) func(x *engine.X) {
+	return func(x *engine.X) {
+		want := dklsSetup(mult)
+		ids := []proto.ID{1, 2, 3}
+		net := schednet.New(ids...)
+		net.FIFO = true
+		net.DupDev = true
+		name := "dkls23-" + mult
+		out := proto.C01DKLs23Run(x, net, mult, dklsSuite, dklsShards, ids, []byte("m"), engine.Seed(), "c11")
+		if out.Info != nil && out.Info.HarnessErr != "" {
+			panic(engine.HarnessError{Msg: out.Info.HarnessErr})
+		}
+		if out.Info != nil && out.Info.Deadlock != "" {
+			x.Failf("runner/deadlock/"+name, "%s: DEADLOCK under a benign delivery order / identical retransmission: %s", name, out.Info.Deadlock)
+			return
+		}
+		for who, err := range out.Errs {
+			x.Failf("runner/outcome-differs/"+name, "%s: %s failed under a benign delivery order / identical retransmission: %v; the undisturbed run succeeds", name, who, firstLine(err.Error()))
+		}
+		if sig, ok := out.Sigs["agg/outside"]; ok {
+			if got := fmt.Sprintf("%x/%x", sig.R().Bytes(), sig.S().Bytes()); got != want {
+				x.Failf("runner/result-differs/"+name, "%s: signature %s differs from the undisturbed run %s", name, got, want)
+			}
+		} else if len(out.Errs) == 0 {
+			x.Failf("runner/outcome-differs/"+name, "%s: the aggregator ended without a signature", name)
+		}
+		x.Observe(len(out.Errs))
+	}
 }
